@@ -68,6 +68,11 @@ Theorem C06_epoch_inv : forall c s x, epoch_inv s -> epoch_inv (snd (sstep c s x
 Proof. exact epoch_inv_step. Qed.
 Print Assumptions C06_epoch_inv.
 
+(** ... and therefore in every reachable state: after any history whatever, a breaker that is not
+    CLOSED holds no counted failure (nothing recorded before the last transition can contribute) *)
+Theorem C06_epoch_inv_reachable : forall c h, epoch_inv (snd (srun c sinit h)).
+Proof. exact epoch_inv_reachable. Qed.
+Print Assumptions C06_epoch_inv_reachable.
 (** successes (and cancels, and admissions) while closed change nothing *)
 Theorem C06_closed_noops : forall c now s,
   s_st s = CLOSED ->
